@@ -65,24 +65,58 @@ def _slim(res, keep_trace):
     return out
 
 
+def isolated(fn, timeout):
+    """Run fn() in a forked child and return its (picklable) result.
+
+    Every simulated history starts from the same pristine process state (modules
+    imported, nothing of skchange executed), so a run is a function of its seed — or of
+    its replay file — alone, even if the code under test keeps process-global state."""
+    import select
+
+    from histsim.pristine import _recv, _send
+
+    r, w = os.pipe()
+    pid = os.fork()
+    if pid == 0:
+        code = 0
+        try:
+            os.close(r)
+            try:
+                res = fn()
+            except BaseException:  # noqa: BLE001
+                res = {"harness_error": traceback.format_exc()}
+            _send(w, res)
+        except BaseException:  # noqa: BLE001
+            code = 3
+        finally:
+            os._exit(code)
+    os.close(w)
+    try:
+        ready, _, _ = select.select([r], [], [], timeout)
+        if not ready:
+            os.kill(pid, signal.SIGKILL)
+            return {"harness_error": "timeout: run exceeded its wall-clock guard"}
+        try:
+            return _recv(r)
+        except EOFError:
+            return {"harness_error": "run process died without a result"}
+    finally:
+        os.close(r)
+        try:
+            os.waitpid(pid, 0)
+        except ChildProcessError:
+            pass
+
+
 def _run_chunk(args):
     prop, seed, tier, indices, per_run_guard, sample_idx = args
     mod = get_module(prop)
     out = []
     for idx in indices:
-        signal.signal(signal.SIGALRM, _alarm)
-        signal.alarm(per_run_guard)
-        faulthandler.dump_traceback_later(per_run_guard + 5, exit=False)
-        try:
-            res = mod.run_one(seed, idx, tier, _PRISTINE)
-            out.append(_slim(res, keep_trace=idx in sample_idx))
-        except HarnessTimeout:
-            out.append({"harness_error": f"timeout run={idx}", "run": idx})
-        except Exception:  # noqa: BLE001
-            out.append({"harness_error": f"run={idx}\n" + traceback.format_exc(), "run": idx})
-        finally:
-            signal.alarm(0)
-            faulthandler.cancel_dump_traceback_later()
+        res = isolated(lambda: _slim(mod.run_one(seed, idx, tier, _PRISTINE), keep_trace=idx in sample_idx), per_run_guard)
+        if "harness_error" in res:
+            res = {"harness_error": f"run={idx}: " + res["harness_error"], "run": idx}
+        out.append(res)
     return out
 
 
@@ -121,9 +155,8 @@ def minimise(prop, trace, violation, pristine=None, budget_s=120):
     t0 = time.time()
 
     def fails(tr):
-        try:
-            r = mod.replay(tr, pristine)
-        except Exception:  # noqa: BLE001
+        r = isolated(lambda: {"violations": mod.replay(tr, pristine)["violations"]}, 300)
+        if "harness_error" in r:
             return None
         for v in r["violations"]:
             if vkey(v) == key:
